@@ -9,7 +9,7 @@ import numpy as np
 
 import core
 from core import Failure
-from props.c09 import config_for, coords, geom, max_nbr
+from props.c09 import config_for, coords, geom, max_nbr, other_arr
 
 ID = "C16"
 LEAN_MODULE = "SnowProofs.Props.C16"
@@ -46,7 +46,9 @@ RULE = ("EXHAUSTIVE over shapes: every shape n_x, n_y <= 7, n_z <= 4 (quick) / <
         "requests, plain and thinned with uniform / random inside every group, with the trajectory-table labels of the "
         "recorded subset; index-list requests in non-ascending order with the data of each trajectory row identified "
         "against the same-seed full recording; every group name queried twice, the first result overwritten in between, "
-        "on objects built with 'all', with index lists and with thinning requests); non-trivial when n_x, n_y >= 2; distinct by the JSON form of the case (corpus cases repeat box shapes)")
+        "on objects built with 'all', with index lists and with thinning requests; and an object history that "
+        "re-points configPath to the other arrangement (same shape) after queries and tables, compared with the "
+        "model and the oracle of the final arrangement); non-trivial when n_x, n_y >= 2; distinct by the JSON form of the case (corpus cases repeat box shapes)")
 EXPLANATION = ("Lean theorems for all shapes with n_x, n_y >= 2 about the group model + exhaustive comparison of the "
                "five code paths with the model over a box of shapes")
 PARALLEL = True
@@ -233,6 +235,32 @@ def run_impl(case):
         except Exception as e:
             thin[sp] = {"raise": core.exc_class(e), "choices": [c["out"] for c in log]}
     obs["thin"] = thin
+    # 6. object history: every name queried and the tables made under the case's arrangement, then configPath
+    #    re-pointed to the OTHER arrangement (same shape) and everything asked again
+    oth = other_arr(arr)
+    sw = {"arr": oth}
+    try:
+        S6 = Snowflake(storeStates="all", **kw)
+        _requery(S6)
+        S6.run()
+        S6.to_frame(n_timeSteps=2)
+        S6.configPath = config_for(oth)
+        _, E6 = S6._buildInteractionMatrices()
+        sw["ext"] = [_lab(e) for e in np.asarray(E6).ravel()]
+        sw["requery"] = _requery(S6)
+        sw["masks"] = {}
+        for q in QUERIES[6:9]:
+            sw["masks"][_q(q)] = [int(i) for i in np.where(S6.getVialGroup(q))[0]]
+        S6.run()
+        sdf, tdf = S6.to_frame(n_timeSteps=2)
+        d = sdf[sdf.variable == "t_nucleation"].sort_values("vial")
+        sw["statsLabels"] = [_lab(v) for v in d["group"].tolist()]
+        t0 = tdf["Time"].min()
+        d = tdf[(tdf.state == "temperature") & (tdf.Time == t0)].sort_values("vial")
+        sw["trajLabels"] = [_lab(v) for v in d["group"].tolist()]
+    except Exception as e:
+        sw["raise"] = core.exc_class(e)
+    obs["switched"] = sw
     return obs
 
 
@@ -262,6 +290,12 @@ def run_model(drv, case, impl):
             raise RuntimeError(r4["error"])
         thin[sp] = {"raise": r4["raise"]} if "raise" in r4 else {"mask": r4["mask"]}
     out["thin"] = thin
+    sh2 = dict(sh, arr=other_arr(case["arr"]))
+    r5 = drv.call(dict(op="groups", queries=QUERIES, **sh2))
+    if "error" in r5:
+        raise RuntimeError(r5["error"])
+    out["switched"] = {"ext": r5["ext"], "statsLabels": r5["statsLabels"], "trajLabels": r5["trajLabels"],
+                       "masks": {_q(q): m for q, m in zip(QUERIES, r5["masks"])}}
     return out
 
 
@@ -323,6 +357,24 @@ def compare(case, impl, model):
                        f"{[model['trajLabels'][v] for v in want_v]}")
         if "requery" in rec:
             requery_dis(f"storeStates={rec['sel']} object", rec["requery"])
+    sw, msw = impl.get("switched"), model.get("switched")
+    if sw is not None and msw is not None:
+        tag = f"object re-pointed to the {sw['arr']} arrangement after queries and tables"
+        if "raise" in sw:
+            dis.append(f"{tag}: raises {sw['raise']}")
+        else:
+            if sw["ext"] != msw["ext"]:
+                dis.append(f"{tag}: VIAL_EXT is not that of the final arrangement")
+            for g in NAMES:
+                mg = msw["masks"][_q([g])]
+                if sw["requery"].get(g) != [mg, mg]:
+                    dis.append(f"{tag}: getVialGroup({g!r}) twice: impl {sw['requery'].get(g)} vs model {mg}")
+                    break
+            for q, m in sw["masks"].items():
+                if m != msw["masks"][q]:
+                    dis.append(f"{tag}: getVialGroup({q}): impl {m} vs model {msw['masks'][q]}")
+            if sw["statsLabels"] != msw["statsLabels"] or sw["trajLabels"] != msw["trajLabels"]:
+                dis.append(f"{tag}: table labels are not those of the final arrangement")
     for sp, m in model["thin"].items():
         a = impl["thin"].get(sp, {})
         if a.get("raise") != m.get("raise") or a.get("mask") != m.get("mask"):
@@ -464,6 +516,34 @@ def predicates(case, impl):
         if labs is not None and [canon(arr, nz, l) if isinstance(l, str) else l for l in labs] != cls:
             out.append(Failure(clause="labels_agree", key=f"labels_agree|to_frame.stats|thinned-object,{sc}",
                                detail=f"{where}, object with {tag}: statistics-table labels {labs}"))
+    # object history with an arrangement switch: classes, queries and labels of the FINAL configuration
+    sw = impl.get("switched")
+    if sw is not None:
+        oth = sw["arr"]
+        tag = f"{where} object re-pointed to the {oth} arrangement (configPath) after queries and tables"
+        if "raise" in sw:
+            out.append(Failure(clause="groups_same_on_every_object", key=f"groups_same_on_every_object|configPath|raises {sw['raise']}",
+                               detail=f"{tag}: raises {sw['raise']}"))
+        else:
+            mx2 = max_nbr(oth, nz)
+            expo2 = [mx2 - sum(1 for j in range(N) if j != i and geom(oth, co[i], co[j])) for i in range(N)]
+            cls2 = [oracle_class(oth, nz, e) for e in expo2]
+            if all(c is not None for c in cls2):
+                want2 = {g: [i for i in range(N) if cls2[i] == canon(oth, nz, g)] for g in ("corner", "edge", "side", "core", "center")}
+                want2["all"] = list(range(N))
+                sc2 = "%s,%s" % (oth, "flat" if nz == 1 else "pallet")
+                for g in NAMES:
+                    if sw["requery"].get(g) != [want2[g], want2[g]]:
+                        out.append(Failure(clause="groups_same_on_every_object",
+                                           key=f"groups_same_on_every_object|configPath|switched,{sc2}",
+                                           detail=f"{tag}: getVialGroup({g!r}) = {sw['requery'].get(g)}; the class in the "
+                                                  f"{oth} arrangement is {want2[g]}"))
+                        break
+                for tab in ("statsLabels", "trajLabels"):
+                    labs = sw[tab]
+                    if [canon(oth, nz, l) if isinstance(l, str) else l for l in labs] != cls2:
+                        out.append(Failure(clause="labels_agree", key=f"labels_agree|configPath|switched,{tab},{sc2}",
+                                           detail=f"{tag}: {tab} = {labs}; classes {cls2}"))
     # recorded index lists in the user's order: the label of a trajectory row is the class of the vial whose
     # data the row holds (data identified against the same-seed run that records every vial)
     for r in impl.get("subsets", []):
